@@ -506,11 +506,13 @@ def run(ctx):
     for n in txt_nodes:
         if isinstance(n, ast.Compare) or (isinstance(n, ast.Call) and au.method_name(n) in ("isin", "isnull", "notnull")):
             for x in au.walk_local(n):
-                if isinstance(x, ast.Subscript) and au.const_str(x.slice) in ("asset", "type", "node", "var_name", "time_step", "bool"):
-                    sel_cols.add(au.const_str(x.slice))
+                if isinstance(x, ast.Subscript) and au.const_str(x.slice) is not None and not isinstance(x.value, ast.Name):
+                    sel_cols.add(au.const_str(x.slice))          # any column of the mapping that takes part in the selection
     ctx.ob("C04.a", dcf, "every variable of the asset is accounted", sel_cols <= {"asset"},
-           "Asset.dcf restricts the rows by %s as well: variables of the asset outside that selection (e.g. the scale variable of type "
-           "'size' with its fixed costs) are in the objective but missing from the cash flows, so value != sum of cash flows" % sorted(sel_cols - {"asset"}),
+           "Asset.dcf selects the rows by %s as well as by asset == self.name. The rows of an asset are exactly those that carry its name: a "
+           "narrower selection leaves variables of the asset (e.g. the scale variable of type 'size' with its fixed costs) out of the cash "
+           "flows, a wider one (rows that merely mention the name in another column, e.g. the original names of assets wrapped by a "
+           "structured asset) adds other assets' variables - either way value != sum of cash flows" % sorted(sel_cols - {"asset"}),
            node=dcf.node)
     dedup = [n for n in txt_nodes if isinstance(n, ast.Call) and au.method_name(n) == "duplicated"]
     by_index = bool(dedup) and all(isinstance(n.func, ast.Attribute) and au.terminal(n.func.value) == "index" for n in dedup)
